@@ -62,7 +62,7 @@ static void finish(const char *why)
 }
 
 /* ------------------------------------------------------------------ objects */
-struct fdo { struct iv_fd *o; int fd, peer; int exists; int isreg; int bad; int fresh; char kind[8]; };
+struct fdo { struct iv_fd *o; int fd, peer; int exists; int isreg; int bad; int fresh; int alias; char kind[8]; };
 struct tmo { struct iv_timer *o; int exists; };
 struct tko { struct iv_task *o; int exists; };
 struct evo { struct iv_event *o; int exists; int isreg; };
@@ -134,6 +134,25 @@ static const char *name_of_fdnum(int fd, char *buf)
 	return NULL;
 }
 
+/* several struct iv_fd may name ONE descriptor number ("=f<k>" objects): prefer the object the library itself attached to the kernel
+ * entry (epoll: data.ptr; poll: the slot's iv_fd), as long as that object really has this descriptor number */
+static const char *name_of_fdobj(const void *obj, int fd, char *buf)
+{
+	int i;
+	for (i = 0; obj != NULL && i < MAXO; i++)
+		if (F[i].exists && (const void *)F[i].o == obj && F[i].fd == fd) { sprintf(buf, "f%d", i); return buf; }
+	return name_of_fdnum(fd, buf);
+}
+
+static const char *name_of_slot(struct pollfd *pfds, int i, char *buf)
+{
+	struct iv_state *st = the_state();
+	const char *m = iv_poll_method_name();
+	if (st != NULL && m != NULL && (!strcmp(m, "poll") || !strcmp(m, "ppoll")) && pfds == st->u.poll.pfds && i < st->u.poll.num_regd_fds)
+		return name_of_fdobj(st->u.poll.fds[i], pfds[i].fd, buf);
+	return name_of_fdnum(pfds[i].fd, buf);
+}
+
 static int cmp_names(const void *a, const void *b)
 {
 	const char *x = *(const char * const *)a, *y = *(const char * const *)b;
@@ -203,7 +222,15 @@ static void mk_fd(int i, const char *kind)
 	F[i].o = umalloc(sizeof(struct iv_fd));
 	IV_FD_INIT(F[i].o);
 	F[i].fresh = 1;
-	if (!strcmp(kind, "bad")) {
+	if (kind[0] == '=') {
+		/* "=f<k>": a second struct iv_fd for the SAME descriptor number as f<k> (an application may hand one descriptor to two
+		 * objects; whether the second registration attempt succeeds depends on the poll method) */
+		int k = atoi(kind + 2) % MAXO;
+		F[i].fd = F[k].fd;
+		F[i].peer = -1;
+		F[i].alias = 1;
+		snprintf(F[i].kind, sizeof(F[i].kind), "alias");
+	} else if (!strcmp(kind, "bad")) {
 		F[i].fd = 900 + i;	/* never opened: EBADF / POLLNVAL */
 		F[i].peer = -1;
 		F[i].bad = 1;
@@ -306,7 +333,7 @@ static void one_action(char *act)
 		errno = EINTR;	/* errno holds whatever an earlier call left there */
 		logf_("API %s f%d %d %d %d\n", op[0] == 'r' ? "fdRegister" : "fdRegisterTry", i,
 		      F[i].o->handler_in != NULL, F[i].o->handler_out != NULL, F[i].o->handler_err != NULL);
-		if (!F[i].bad) {	/* start from a blocking, inheritable descriptor so that the library has to change it */
+		if (!F[i].bad && !F[i].alias) {	/* start from a blocking, inheritable descriptor so that the library has to change it */
 			fcntl(F[i].fd, F_SETFL, fcntl(F[i].fd, F_GETFL) & ~O_NONBLOCK);
 			fcntl(F[i].fd, F_SETFD, 0);
 		}
@@ -316,7 +343,7 @@ static void one_action(char *act)
 			logf_("RET 0\n");
 		} else {
 			int r = iv_fd_register_try(F[i].o);
-			if (r != 0 && !F[i].bad && fcntl(F[i].fd, F_GETFD) >= 0)
+			if (r != 0 && !F[i].bad && !F[i].alias && fcntl(F[i].fd, F_GETFD) >= 0)
 				logf_("TRY-FAILED-ON-OPEN-FD f%d\n", i);	/* the attempt may only fail for a descriptor that is not open */
 			F[i].isreg = (r == 0);
 			logf_("RET %d\n", r ? -1 : 0);
@@ -738,7 +765,7 @@ static void log_wait_epoll(const char *prim, long long to_ns, int is_ms, long lo
 			continue;
 		if (kint_data[fd] == (void *)st) { kick = !!(kint_events[fd] & EPOLLIN); continue; }
 		if (kint_data[fd] == (void *)&st->time) continue;
-		if (name_of_fdnum(fd, nb[n]) != NULL) {
+		if (name_of_fdobj(kint_data[fd], fd, nb[n]) != NULL) {
 			sprintf(nb[n] + strlen(nb[n]), ":%s%s", (kint_events[fd] & EPOLLIN) ? "i" : "", (kint_events[fd] & EPOLLOUT) ? "o" : "");
 			names[n] = nb[n];
 			n++;
@@ -877,7 +904,7 @@ static int do_poll(const char *prim, struct pollfd *pfds, nfds_t n, long long to
 	logf_(" int=");
 	for (i = 0; i < n; i++) {
 		char nb[16];
-		const char *nm = name_of_fdnum(pfds[i].fd, nb);
+		const char *nm = name_of_slot(pfds, i, nb);
 		logf_("%s%s:%s%s%s", i ? "," : "", nm ? nm : "?", (pfds[i].events & POLLIN) ? "i" : "", (pfds[i].events & POLLOUT) ? "o" : "",
 		      (pfds[i].events & POLLHUP) ? "h" : "");
 	}
@@ -922,7 +949,7 @@ static int do_poll(const char *prim, struct pollfd *pfds, nfds_t n, long long to
 		const char *nm;
 		if (!pfds[i].revents)
 			continue;
-		nm = name_of_fdnum(pfds[i].fd, nb);
+		nm = name_of_slot(pfds, i, nb);
 		logf_("%s%s:%s%s%s%s", first ? "" : ",", nm ? nm : "?", (pfds[i].revents & POLLIN) ? "i" : "", (pfds[i].revents & POLLOUT) ? "o" : "",
 		      (pfds[i].revents & POLLERR) ? "e" : "", (pfds[i].revents & (POLLHUP | POLLNVAL)) ? "h" : "");
 		first = 0;
